@@ -277,3 +277,56 @@ def call_variants(an, bi, ct, max_defs=4, args=None, depth=2):
         ct2 = trewrite(ct, lambda t: v if t == ph else None)
         out.append((d.bb, ct2))
     return out
+
+
+def simplify_fields(t):
+    """field-of-aggregate projections folded: field(agg{.., n: x, ..}, n) -> x (after a substitution put an aggregate
+    under a projection)"""
+    def f(x):
+        if x and x[0] == 'field' and len(x) == 5:
+            base = strip_all(simplify_fields(x[1]))
+            if base[0] == 'agg' and (base[1] != 'adt' or x[4] in (None, base[3])):
+                for fn, ft in base[4]:
+                    if fn == x[2]:
+                        return simplify_fields(ft)
+            return ('field', simplify_fields(x[1])) + tuple(x[2:])
+        return None
+    return trewrite(t, f)
+
+
+def value_variants(an, t, max_defs=4):
+    """A value assembled from the components of a join of aggregates — `let (r, m) = match x {A => (r1, m1), B => (r2,
+    m2)}; Clip{rect: r, mask: m}` — stands for one value per alternative: [(deciding block, term)] with the join
+    substituted and the projections folded; [(None, t)] when t contains no such join (exactly one is expanded)."""
+    phis = []
+    for x in subterms(t):
+        if x[0] == 'field' and strip_all(x[1])[0] == 'phi':
+            ph = strip_all(x[1])
+            if ph in phis or not (2 <= len(ph[2]) <= max_defs):
+                continue
+            ds = [an.defs[k] for k in ph[2]]
+            if all(d.kind == 'assign' and not d.partial and strip_all(an.def_term(d))[0] == 'agg' for d in ds):
+                phis.append(ph)
+    if len(phis) != 1:
+        return [(None, t)]
+    ph = phis[0]
+    out = []
+    for k in ph[2]:
+        d = an.defs[k]
+        v = strip_all(an.def_term(d))
+        out.append((d.bb, simplify_fields(trewrite(t, lambda x: v if x == ph else None))))
+    return out
+
+
+def calls_to(ctx, b, q):
+    """call terms of callee q in body b: real call sites, and (A12) expressions that were recognised as q written out"""
+    an = ctx.an(b)
+    out = [ct for bi, d, ct in calls_in(ctx, b) if d == q]
+    o = getattr(ctx.F, 'outliner', None)
+    if o is not None and q in o.active:
+        for d in an.defs:
+            if d.kind == 'assign' and not d.partial and d.bb in an.cfg.reach:
+                t = an.def_term(d)
+                if t[0] == 'call' and t[1] == q and t not in out:
+                    out.append(t)
+    return out
